@@ -340,11 +340,20 @@ class Quantity {
     }
 
     // Modulo operator (defined only for integral rep).
-    friend constexpr Quantity operator%(Quantity a, Quantity b) { return {a.value_ % b.value_}; }
+    //
+    // Like `+` and `-` above, the result has whatever rep the raw operation produces (small
+    // integral reps promote), rather than narrowing the promoted result back to `Rep`.
+    friend constexpr auto operator%(Quantity a, Quantity b) {
+        return make_quantity<UnitT>(a.value_ % b.value_);
+    }
 
     // Unary plus and minus.
-    constexpr Quantity operator+() const { return {+value_}; }
-    constexpr Quantity operator-() const { return {-value_}; }
+    constexpr Quantity<UnitT, decltype(+std::declval<RepT>())> operator+() const {
+        return make_quantity<UnitT>(+value_);
+    }
+    constexpr Quantity<UnitT, decltype(-std::declval<RepT>())> operator-() const {
+        return make_quantity<UnitT>(-value_);
+    }
 
     // Automatic conversion to Rep for Unitless type.
     template <typename U = UnitT, typename = std::enable_if_t<IsUnitlessUnit<U>::value>>
